@@ -17,6 +17,7 @@ SimpleProgressObserver update thread: the last value handed to _output was rende
    (C15: nothing is reported after exit begins).
 """
 import itertools
+import textwrap
 
 from ujvc.core import EngineSignal, Unsupported
 from ujvc.units import get, unit
@@ -451,6 +452,113 @@ class Ratio:
         return f"<{self.a!r}/{self.b!r}>"
 
     __str__ = __repr__ = lambda self: format(self, "")
+
+
+class _EInt(SInt):
+    """whole seconds as get_elapsed_string handles them: floor division and remainder by positive constants (python's // and % agree with
+    SMT-LIB div / mod for a positive divisor), truth value, and formatting - a formatted component is recorded as a token so that the rendered
+    text can be decoded again"""
+
+    tokens = None   # list shared per path
+
+    def _w(self, t):
+        r = _EInt(self.ctx, t)
+        r.tokens = self.tokens
+        return r
+
+    def __floordiv__(self, k):
+        if not (isinstance(k, int) and not isinstance(k, bool) and k > 0):
+            raise Unsupported("// by something else than a positive integer constant")
+        return self._w(self.t / k)
+
+    def __mod__(self, k):
+        if not (isinstance(k, int) and not isinstance(k, bool) and k > 0):
+            raise Unsupported("% by something else than a positive integer constant")
+        return self._w(self.t % k)
+
+    def __add__(self, o):
+        return self._w(_i_of(SInt.__add__(self, o)))
+
+    def __sub__(self, o):
+        return self._w(_i_of(SInt.__sub__(self, o)))
+
+    def __mul__(self, o):
+        return self._w(_i_of(SInt.__mul__(self, o)))
+
+    __rmul__ = __mul__
+
+    def __format__(self, spec):
+        self.tokens.append((self.t, spec))
+        return f"\u27e6{len(self.tokens) - 1}\u27e7"
+
+    def __str__(self):
+        return format(self, "")
+
+    def __hash__(self):
+        return id(self)
+
+
+def _i_of(r):
+    return r.t
+
+
+class _Elapsed:
+    """the float handed to get_elapsed_string: any finite non-negative number of seconds; int() truncates"""
+
+    def __init__(self, ctx, whole, tokens):
+        self.ctx, self.whole, self.tokens = ctx, whole, tokens
+
+
+@unit("progress.get_elapsed_string", props=["C20"], functions=[(SP, "get_elapsed_string"), (SP, "ScopeState.to_elapsed_string")],
+      assumptions=["elapsed times are finite and non-negative (the attribution clock never runs backwards: progress.State); int() truncates; python's // and % by a "
+                   "positive constant are SMT-LIB div / mod; an integer formats to its decimal digits (padding does not change the value)"],
+      min_obligations=4)
+def elapsed_string_unit(ctx):
+    """For EVERY elapsed time: raises nothing, and the text decodes back to the whole seconds - components 'h', 'm', 's' in this order, minutes and
+    seconds below 60, h*3600 + m*60 + s == int(elapsed); a larger unit is omitted only when it is zero.  (The statement: 'the elapsed time they
+    attribute to scopes adds up to the wall-clock time' - a display that drops or double counts an hour does not show what was attributed.)"""
+    import re
+
+    tokens = []
+    e = ctx.fresh(IntS, "whole_seconds")
+    ctx.assume(e >= 0)
+
+    def _int(x):
+        if isinstance(x, _Elapsed):
+            r = _EInt(ctx, x.whole)
+            r.tokens = tokens
+            return r
+        if isinstance(x, _EInt):
+            return x
+        return int(x)
+
+    env = {"int": _int}
+    fn = get(SP, "get_elapsed_string").compile_into(env)
+    env["get_elapsed_string"] = fn
+    simple, comp, po = _mods()
+    how = ctx.choose(2, "entry")
+    if how == 0:
+        kind, val = _catch(ctx, lambda: fn(_Elapsed(ctx, e, tokens)))
+    else:
+        m = get(SP, "ScopeState.to_elapsed_string").compile_into(env)
+        st = simple.ScopeState(weighted_elapsed=_Elapsed(ctx, e, tokens))
+        kind, val = _catch(ctx, lambda: m(st))
+    ctx.check("elapsed-string:raises-nothing-for-any-elapsed-time", bool(kind == "ret" and isinstance(val, str)), info=repr(val))
+    if kind != "ret" or not isinstance(val, str):
+        return "raise"
+    parts = re.findall("\u27e6(\\d+)\u27e7([^\u27e6]*)", val)
+    ok_shape = bool(parts) and "".join(f"\u27e6{i}\u27e7{suf}" for i, suf in parts) == val
+    units = [suf for _, suf in parts]
+    ctx.check("elapsed-string:components-are-h,m,s-in-this-order(a-suffix-of-them)", bool(ok_shape and units in (["h", "m", "s"], ["m", "s"], ["s"])), info=repr(val))
+    if not (ok_shape and units in (["h", "m", "s"], ["m", "s"], ["s"])):
+        return "shape"
+    secs = {"h": 3600, "m": 60, "s": 1}
+    terms = {u: tokens[int(i)][0] for (i, _), u in zip(parts, units)}
+    ctx.check("elapsed-string:decodes-to-the-whole-seconds(h*3600+m*60+s==int(elapsed))", z3.Sum([terms[u] * secs[u] for u in units]) == e, props=["C20"])
+    ctx.check("elapsed-string:minutes-and-seconds-below-60,nothing-negative",
+              z3.And([terms[u] >= 0 for u in units] + [terms[u] < 60 for u in units if u != "h"]), props=["C20"])
+    ctx.check("elapsed-string:a-larger-unit-is-omitted-only-when-it-is-zero", {3: z3.BoolVal(True), 2: e < 3600, 1: e < 60}[len(units)], props=["C20"])
+    return "ok"
 
 
 @unit("progress.render[symbolic-counts]", props=["C20"],
@@ -908,4 +1016,40 @@ def displays_e2e(ctx):
     return "ok"
 
 
-REPLAYS = [("progress.displays-end-to-end*", _replay_e2e), ("progress.final-render*", _replay_final), ("progress.State/elapsed*", _replay_elapsed), ("progress.*", _replay)]
+ELAPSED_STRING_SCRIPT = textwrap.dedent(
+    '''
+    import re, sys
+    from uberjob.progress._simple_progress_observer import get_elapsed_string, ScopeState
+    extra = [int(a) for a in sys.argv[1:]]
+    bad = []
+    for e in list(range(0, 7300)) + [35999, 36000, 86399, 86400, 90061, 360000, 10**7] + extra:
+        for v in (e, e + 0.75):
+            try:
+                txt = ScopeState(weighted_elapsed=v).to_elapsed_string() if e % 2 else get_elapsed_string(v)
+            except Exception as ex:
+                bad.append((v, "raised %r" % ex)); continue
+            m = re.fullmatch(r"(?:(\\d+)h)?(?:(\\d+)m)?(\\d+)s", txt)
+            if not m: bad.append((v, txt, "not of the form [<h>h][<m>m]<s>s")); continue
+            h, mi, se = (int(x) if x is not None else None for x in m.groups())
+            total = (h or 0) * 3600 + (mi or 0) * 60 + se
+            if total != e or se >= 60 or (mi or 0) >= 60 or (h is None and e >= 3600) or (mi is None and e >= 60):
+                bad.append((v, txt, "decodes to %d s" % total))
+    for b in bad[:5]: print("elapsed time %r is displayed as %s" % (b[0], b[1:]))
+    sys.exit(1 if bad else 0)
+    '''
+)
+
+
+def _replay_elapsed_string(ob):
+    import os
+    import re as _re
+
+    from ujvc.units import run_native_p
+    from ujvc.z3env import REPO_SRC
+
+    extra = _re.findall(r"whole_seconds![0-9]+ = ([0-9]+)", (ob or {}).get("model", "") if isinstance(ob, dict) else getattr(ob, "model", "") or "")
+    p = run_native_p(["/venv/bin/python", "-c", ELAPSED_STRING_SCRIPT] + extra[:3], env=dict(os.environ, PYTHONPATH=REPO_SRC), timeout=120)
+    return {"reproduced": p.returncode == 1, "detail": (p.stdout + p.stderr)[-2000:], "script": ELAPSED_STRING_SCRIPT, "argv": extra[:3]}
+
+
+REPLAYS = [("progress.get_elapsed_string*", _replay_elapsed_string), ("progress.displays-end-to-end*", _replay_e2e), ("progress.final-render*", _replay_final), ("progress.State/elapsed*", _replay_elapsed), ("progress.*", _replay)]
